@@ -80,6 +80,10 @@ def bitsBE (data : List Nat) (off width : Nat) : Nat :=
 def needBits (data : List Nat) (total : Nat) : M Unit :=
   if data.length * 8 < total then throw .unpackError else pure ()
 
+/-- `x or d` for an `Optional[int]` `x`: `d` when `x` is `None` or `0` (both falsy), else `x` -/
+def orNat (x : Option Nat) (d : Nat) : Nat := match x with | some v => if v = 0 then d else v | none => d
+def orInt (x : Option Int) (d : Int) : Int := match x with | some v => if v = 0 then d else v | none => d
+
 /-- `xs.index(x)`: position of the first occurrence; `none` = `ValueError` -/
 def listIndex : List Nat → Nat → Option Nat
   | [], _ => none
